@@ -1,6 +1,6 @@
 (* Property C01 — charged cost of resident entries never exceeds max_cost.
    Only statements here; proofs are in PolicyProofs.v. *)
-From StrettoModel Require Import Base Metrics Policy PolicyProofs.
+From StrettoModel Require Import Base Metrics Policy PolicyProofs Ttl Store Cache CacheProofs.
 Open Scope Z_scope.
 
 (* For every history of policy operations (add / update / remove / clear / update_max_cost, any
@@ -43,6 +43,24 @@ Theorem C01_max_cost_read_per_add :
     pol_add est oracle {| sl_max := mc; sl_used := sl_used s; sl_kc := sl_kc s |} k cost.
 Proof. exact max_cost_read_per_add. Qed.
 Print Assumptions C01_max_cost_read_per_add.
+
+(* Lifting to the cache and to every schedule: whichever actor steps (client thread, processor,
+   policy worker, clock), in whatever state and flavour, the policy's charges change by at most one
+   of the policy operations above — all of them run under the policy mutex. *)
+Theorem C01_every_cache_step_is_one_policy_operation :
+  forall c st l st' o, cstep c st l = StepOk st' o -> slfu_rel (s_slfu st) (s_slfu st').
+Proof. exact cstep_slfu. Qed.
+Print Assumptions C01_every_cache_step_is_one_policy_operation.
+
+(* Hence in every state reachable by any history under any interleaving, for every max_cost and
+   internal-cost setting: the charged total equals the sum of the per-entry charges and every key
+   is charged at most once. *)
+Theorem C01_reachable_total_is_sum :
+  forall c mc t now ls st os,
+  crun c (cinit c mc t now) ls = Some (st, os) ->
+  sl_used (s_slfu st) = asum (sl_kc (s_slfu st)) /\ NoDup (akeys (sl_kc (s_slfu st))).
+Proof. exact reachable_WF. Qed.
+Print Assumptions C01_reachable_total_is_sum.
 
 (* Non-vacuity: a concrete history in which an update overshoots, a later add evicts one victim and
    is then rejected by popularity, and max_cost is lowered. *)
